@@ -15,13 +15,14 @@ RULE = (
     "generated type expression x value x input forms x placement in which the target lands between two live neighbour "
     "regions (byte patterns) inside a poisoned, traced buffer (hole freed for it / explicit offset into the hole / end "
     "of buffer; BufferNumpy and BufferByteArray; alignment, grow step), followed by 0..6 fitting assignments (leaf, "
-    "whole nested struct/array from python data or ndarray, reference rebinding to data or null, buffer growth) "
+    "whole nested struct/array from python data or ndarray, reference rebinding to data or null, buffer growth; one assignment in three addresses items of arrays of dynamic items by negative index) "
     "through handles, views or a mix. Oracle on raw bytes: the bytes changed by construction lie inside regions "
     "handed out by allocate() during the constructor (the explicit extent for explicit offsets); the object's extent "
     "is one of them and its size equals _size, _get_size() and the size word; nested parts lie inside their parent, "
     "siblings are disjoint (independent layout model), reference targets lie in other allocated regions; each "
     "assignment changes only bytes inside the object's construction-time regions or regions allocated during that "
-    "assignment; neighbours keep their patterns. Non-trivial = object has a dynamic part or a reference and a live "
+    "assignment - and an assignment TO A REFERENCE SLOT only the slot's own words and regions allocated during it (not the "
+    "object referred to so far); neighbours keep their patterns. Non-trivial = object has a dynamic part or a reference and a live "
     "neighbour directly behind it; distinct = distinct case JSON."
 )
 ASSUMPTIONS = c01.ASSUMPTIONS + [
